@@ -224,7 +224,7 @@ def L_CELLS():
     return [sel("flatseq"), sel("flat_struct"), sel("intoiter")] + L_ROWCUR()
 
 
-prop("C01", [sel("rawbounds"), sel("encaps"), sel("witness", fn=r"^(W1|W2|W3|W4|W6|W7|W9|<rule>|<witness>)"), sel("zero", fn=r"^(TooDee|DrainCol|DropGuard| as Drop)"), sel("zero", fn=r"^TooDee"), sel("shape"), sel("deleg", fn=r"TooDee::(push|pop)"), sel("cursor", fn=r"^Col( |:|$)|<rule>"), sel("sortshape"), sel("sortkey"), sel("deleg"), sel("copyshape"), sel("flipshape"), sel("fillshape", fn=r"^(TooDee as |TooDeeOpsMut::)"), sel("lockstep"), sel("noshift"), sel("guard", fn=r"^(TooDee( as |::)|TooDeeOpsMut::|CopyOps::|SortOps::|TranslateOps::)"), sel_dyn(A_OWNED, exclude=NOT_VIEW), sel("nonzero", fn=r"is_empty")],
+prop("C01", [sel("layout", fn=r"^TooDeeView(Mut)?::new$"), sel("rawbounds"), sel("encaps"), sel("witness", fn=r"^(W1|W2|W3|W4|W6|W7|W9|<rule>|<witness>)"), sel("zero", fn=r"^(TooDee|DrainCol|DropGuard| as Drop)"), sel("zero", fn=r"^TooDee"), sel("shape"), sel("deleg", fn=r"TooDee::(push|pop)"), sel("cursor", fn=r"^Col( |:|$)|<rule>"), sel("sortshape"), sel("sortkey"), sel("deleg"), sel("copyshape"), sel("flipshape"), sel("fillshape", fn=r"^(TooDee as |TooDeeOpsMut::)"), sel("lockstep"), sel("noshift"), sel("guard", fn=r"^(TooDee( as |::)|TooDeeOpsMut::|CopyOps::|SortOps::|TranslateOps::)"), sel_dyn(A_OWNED, exclude=NOT_VIEW), sel("nonzero", fn=r"is_empty")],
      "Shape invariant of the owned array, structural clauses: (R-ENCAPS) the three fields are private to module toodee, no exported signature / impl hands out `&mut Vec`, so only the enumerated shape writers can change (len, num_rows, num_cols) - backed by compile_fail witnesses with compiling twins (assigning a field, building the struct or a cursor from parts, AsMut<Vec>, observing the array while a drain / mutable cursor is alive must not type-check); (R-ZERO) num_rows==0 <=> num_cols==0 in every abstract state at every TooDee construction site and at every return of a dimension writer; (R-UNWIND/R-LEAK/R-LEAK-DRAIN/R-HIDE) at every point where control can leave a writer (panic in caller code or a rejected call, leak of the returned drain, return) the triple is untouched, all-zero or in product form; (R-DELEG) push/pop delegate to insert/remove with the dimension as index; (R-RAWBOUNDS, a necessary condition of the cells clause) the raw block moves of insert/remove stay inside the buffer and consecutive moves that shift cells the same way proceed in the only order that does not read already-overwritten cells (back to front when shifting right, front to back when shifting left); (R-CURSOR, Col) the column drain steps and counts through an embedded Col cursor, whose conformance to the ideal strided cursor is what its destructor's compaction relies on.",
      declined=["that the length written by insert_row/insert_col/remove_row on the success path equals the new product (loop/pointer arithmetic, DESIGN 2.4)", "cells equal those of a rows-of-cells model (runtime values) beyond the move-order clause"])
 prop("C02", [sel("layout", fn=r"(Index|IndexMut|::col$|::col_mut$|get_unchecked|::view|::view_mut|from_toodee|TooDeeView(Mut)?::new|<rule>)"), sel("shape", rules=["R-UNWIND", "R-LEAK", "R-LEAK-DRAIN", "R-STALE"]), sel("zero", fn=r"^(TooDee|DrainCol|DropGuard)"), sel("guard", fn=r"(Index|IndexMut|::col$|::col_mut$| as TooDeeOps(Mut)?::col|get_col_params)"), sel("guard", rules=["R-ARITH"], fn=COLCUR), sel("units", fn=r"(Index|::col|get_unchecked|get_col_params|Col as|ColMut as)"), sel("units", fn=VIEWS), sel("cursor", fn=r"^(Col|ColMut) as Index")],
@@ -329,3 +329,4 @@ for _pid in ("C08", "C09", "C10"):
     PROPS[_pid]["explanation"] += " size_hint / len: a plain `+` on the slice length itself adds at most the gap K (zero-sized cells make slices of usize::MAX elements real; L + K is still a length of the parent buffer, anything more can overflow)."
 for _pid in ("C18", "C19"):
     PROPS[_pid]["explanation"] += " (t1c) no arm of the reader's key match reads the slot of another key, so the result does not depend on the order of the entries."
+PROPS["C01"]["explanation"] += " The owned array's constructors include From<TooDeeView> / From<TooDeeViewMut>, which copy `view.rows()`: the slice-view constructors TooDeeView::new / TooDeeViewMut::new (R-LAYOUT: the window handed to the view is exactly num_cols * num_rows cells) are therefore part of this property."
